@@ -1377,6 +1377,8 @@ where
     ) -> bool {
         // `choices` maps levels to the child number to choose
         let mut choices = FixedBitSet::with_capacity(manager.num_levels() as usize);
+        // variables without a value in `args` count as false (child 1)
+        choices.insert_range(..);
         for (var, val) in args {
             // child 0 is "then"/"true", hence the negation
             choices.set(manager.var_to_level(var) as usize, !val);
